@@ -472,6 +472,7 @@ def go_check(moddir, package_root, vet=True, timeout=900):
 
 
 GO_CLASSES = [
+    (r"struct field \w+ repeats json tag .*", "repeated-json-tag"),
     (r"undefined: cog\.Dump", "undefined-cog.Dump"),
     (r"undefined: unknown", "placeholder-type-unknown"),
     (r"undefined: cog\b.*|undefined: cog$|could not import .*/cog\b.*|package .*/cog is not in std.*", "runtime-package-missing"),
